@@ -64,6 +64,10 @@ pub fn normalize(v: &Value) -> Value {
                     continue;
                 }
                 if k == "raw" && t != "TemplateElement" {
+                    // (the spelling of a string literal decides whether a directive is a Use Strict Directive: kept aside)
+                    if t == "StringLiteral" {
+                        out.insert("$raw".into(), val.clone());
+                    }
                     continue;
                 }
                 if k == "optional" && t == "Identifier" {
@@ -926,6 +930,18 @@ impl Eraser {
                 o.insert("optional".into(), json!(true));
             }
             cur = o.get_mut(k.as_str()).unwrap();
+        }
+        // an optional chain is only unfolded for the sake of an instrumented call on it: a guard whose expression
+        // carries no hook at all altered a chain that should have been left as written
+        fn has_hook(v: &Value) -> bool {
+            match v {
+                Value::Object(m) => m.contains_key("$hook") || m.contains_key("$hooks") || m.iter().any(|(k, x)| !k.starts_with('$') && has_hook(x)),
+                Value::Array(a) => a.iter().any(has_hook),
+                _ => false,
+            }
+        }
+        if !has_hook(&rest) {
+            return err("unfolded-without-hook", format!("the optional chain {} is unfolded into a guard on {t} although no call on it is instrumented", brief(&rest)));
         }
         if let Some(o) = rest.as_object_mut() {
             o.insert("$guard".into(), json!(true));
